@@ -69,12 +69,16 @@ def materialise(root, pres, docs, key=None):
         _w(os.path.join(main, "main.yaml"), "---\n" + texts[0] + ("--- !include [" + ", ".join(rest) + "]\n" if rest else ""))
     elif pres == "key":
         _w(os.path.join(main, "main.yaml"), S._key_text(key) + ": !include [" + ", ".join(rel) + "]\n")
+    elif pres == "key_unsafe":
+        _w(os.path.join(main, "main.yaml"), "!unsafe\n" + S._key_text(key) + ": !include [" + ", ".join(rel) + "]\n")
+    elif pres == "include_list_unsafe":
+        _w(os.path.join(main, "main.yaml"), "--- !include [" + ", ".join(rel) + "]\n")
     else:
         raise ValueError(pres)
     return [os.path.join(main, "main.yaml")]
 
 
-def build_sources(sources, cwd):
+def build_sources(sources, cwd, safe=None):
     import drive  # noqa
     import project as P
     from awesomeyaml.builder import Builder
@@ -83,7 +87,7 @@ def build_sources(sources, cwd):
     try:
         b = Builder()
         for s in sources:
-            b.add_source(s, raw_yaml=False)
+            b.add_source(s, raw_yaml=False, safe=safe)
         t = b.build()
         return P.project(t)
     except Exception as e:  # noqa
@@ -95,12 +99,12 @@ def build_sources(sources, cwd):
         os.chdir(old)
 
 
-def build_presentation(pres, docs, key=None):
+def build_presentation(pres, docs, key=None, safe=None):
     root = tempfile.mkdtemp(prefix="ayc06_")
     try:
         os.makedirs(os.path.join(root, "cwd"))
         srcs = materialise(root, pres, docs, key)
-        return build_sources(srcs, os.path.join(root, "cwd"))
+        return build_sources(srcs, os.path.join(root, "cwd"), safe=False if pres == "include_list_unsafe" else safe)
     finally:
         shutil.rmtree(root, ignore_errors=True)
 
@@ -129,6 +133,17 @@ def _replay_one(beh):
         ok = g == want or (isinstance(want, dict) and "e" in want and isinstance(g, dict) and "e" in g and pres != "sources")
         if not ok or ("err" not in got and "err" not in plain and got != plain):
             bad.append(pres)
+    # included by unsafe content: same data, every included node unsafe
+    ug = build_presentation("key_unsafe", docs, S.skey("k"))
+    if isinstance(want, dict) and "e" in want:
+        if "err" not in ug:
+            bad.append("key_unsafe")
+    else:
+        def all_unsafe(n):
+            eff = n["safe"] != "F" and n["isafe"] != "F" and n["dsafe"] == "T"
+            return (not eff) and all(all_unsafe(c) for _, c in n["ch"])
+        if "err" in ug or _cmp(ug) != {"d": [["s:k", want]]} or not all_unsafe(ug["ch"][0][1]):
+            bad.append("key_unsafe")
     for key in ("k", "a"):
         got = build_presentation("key", docs, S.skey(key))
         g = _cmp(got)
@@ -144,7 +159,7 @@ def _replay_one(beh):
 def _record_one(args):
     tid, docs, pres, key = args
     out = build_presentation(pres, docs, S.skey(key) if key else None)
-    plain = build_presentation("sources", docs)
+    plain = build_presentation("sources", docs, safe=False if pres in ("key_unsafe", "include_list_unsafe") else None)
     strip = lambda o: ({"err": o["err"]} if "err" in o else o)  # noqa
     return {"tid": tid, "docs": docs, "pres": pres, "key": S.skey(key or "k"), "out": strip(out), "plain": strip(plain)}
 
@@ -214,7 +229,7 @@ def path_cases(rng=None):
         b = os.path.join(root, "proj", "b", "deep")
         for d in (work, a, b):
             os.makedirs(d)
-        body = ("pf: !path:file [x, y]\np0: !path:parent [x]\np1: !path:parent(1) [x, y]\np2: !path:parent(2) x\n"
+        body = ("pf: !path:file [x, y]\np0: !path:parent [x]\np1: !path:parent(1) [x, y]\np2: !path:parent(2) x\np3: !path:parent(3) [x]\n"
                 "pc: !path:cwd [x]\npa: !path:abs(/opt/data) [x, '..', z]\npn: !path [x, y]\n")
         _w(os.path.join(b, "leaf.yaml"), body)
         _w(os.path.join(a, "mid.yaml"), "sub: !include [../b/deep/leaf.yaml]\n")
@@ -224,10 +239,13 @@ def path_cases(rng=None):
         def expect(cwd):
             leaf = os.path.join(b, "leaf.yaml")
             return {"pf": os.path.join(leaf, "x", "y"), "p0": os.path.join(b, "x"), "p1": os.path.join(os.path.dirname(b), "x", "y"),
-                    "p2": os.path.join(os.path.dirname(os.path.dirname(b)), "x"), "pc": os.path.join(cwd, "x"),
+                    "p2": os.path.join(os.path.dirname(os.path.dirname(b)), "x"),
+                    "p3": os.path.join(os.path.dirname(os.path.dirname(os.path.dirname(b))), "x"), "pc": os.path.join(cwd, "x"),
                     "pa": "/opt/data/z", "pn": os.path.join(cwd, "x", "y")}
         ways = [("direct-abs", os.path.join(b, "leaf.yaml"), work, None),
                 ("direct-rel", os.path.relpath(os.path.join(b, "leaf.yaml"), work), work, None),
+                ("direct-rel-in-own-dir", "leaf.yaml", b, None),          # parent(n) beyond the components of the name
+                ("direct-rel-from-parent", os.path.join("deep", "leaf.yaml"), os.path.dirname(b), None),
                 ("include-other-dir", os.path.join(a, "flat.yaml"), work, None),
                 ("nested-include-under-key", os.path.join(a, "top.yaml"), work, "sub"),
                 ("include-rel-source", os.path.relpath(os.path.join(a, "flat.yaml"), a), a, None),
@@ -339,7 +357,7 @@ def _run(prop, tier, seed, replay, wd):
     for docs_name, drange, maxd in cfgs:
         sub = os.path.join(wd, "exh_" + docs_name)
         os.makedirs(sub)
-        ex = _exhaustive(docs_name, drange, maxd, ["Inv_Presentation", "Inv_NestedInclude", "Inv_Lookup"], sub)
+        ex = _exhaustive(docs_name, drange, maxd, ["Inv_Presentation", "Inv_NestedInclude", "Inv_Lookup", "Inv_UnsafeInclude"], sub)
         if ex["violated"]:
             shown = "\n".join("---\n" + S.render_doc(d) for d in ex["cex"]["docs"]) if ex["cex"] else ex["out"][-2500:]
             raise E.MachineryError(f"the specification itself violates {ex['violated']} on {docs_name}\n{shown}")
@@ -394,12 +412,13 @@ def _run(prop, tier, seed, replay, wd):
     jobs, info = [], {}
     for tid in range(1, n + 1):
         docs = _gen_docs(rng)
-        pres = rng.choice(PRESENTATIONS[1:] + ["key"])
-        key = rng.choice(["k", "a", "b"]) if pres == "key" else None
+        pres = rng.choice(PRESENTATIONS[1:] + ["key", "key_unsafe", "include_list_unsafe"])
+        key = rng.choice(["k", "a", "b"]) if pres in ("key", "key_unsafe") else None
         jobs.append((tid, docs, pres, key))
         info[tid] = (docs, pres, key)
     tid = 1000000
     for docs, pres in bad_hist:
+      if True:
         key = pres.split(":")[1] if pres.startswith("key:") else None
         jobs.append((tid, docs, "key" if key else pres, key))
         info[tid] = (docs, "key" if key else pres, key)
@@ -433,7 +452,7 @@ def _run(prop, tier, seed, replay, wd):
                    "priorities, value-less !del, !clear) written to real files and built as n sources, one multi-document source, a top-level "
                    "!include list, n top-level includes, an include of a multi-document file, a nested include, a document followed by an "
                    "include, and below two keys; all 16 combinations of where two included names exist (nowhere / including file's "
-                   "directory / working directory / both with different content); 42 !path cases (7 reference points x 6 ways of reaching "
+                   "directory / working directory / both with different content); 64 !path cases (8 reference points x 8 ways of reaching "
                    "the file); B: seeded random sequences x random presentation validated by TLC. non-trivial = at least two documents; "
                    "distinct by documents + presentation")
     bad.sort(key=lambda x: len(json.dumps(info[x][0])))
